@@ -2936,3 +2936,41 @@ T("C05", "twin-pushdown-continue", PG,
   "            if out_node == child_operator:\n                pass\n            else:\n                new_event_node = graph.create_event_node(",
   "            if out_node != child_operator:\n                new_event_node = graph.create_event_node(",
   "negated test instead of pass / else")
+
+# ---- next path / merge point reached (R1.23 = R5.16)
+M("C01", "next-path-operator-drawn-as-event", WALK,
+  "    elif next_node_class.operator is not None:\n        previous_node_class = next_node_class\n        previous_puml_node = logic_list[-1].start_node",
+  "    elif next_node_class.operator is None:\n        previous_node_class = next_node_class\n        previous_puml_node = logic_list[-1].start_node",
+  "R1.23", "operator paths are drawn as events and event paths are skipped")
+M("C05", "merge-point-resumes-from-start", WALK,
+  "    else:\n        previous_puml_node = logic_list[-1].current_path_puml_node\n        previous_node_class = next_node_class\n    return previous_puml_node, previous_node_class",
+  "    else:\n        previous_puml_node = logic_list[-1].start_node\n        previous_node_class = next_node_class\n    return previous_puml_node, previous_node_class",
+  "R5.16", "a walked path is resumed from the block's start operator")
+M("C01", "merge-point-keeps-stale-class", WALK,
+  "        previous_puml_node = logic_list[-1].current_path_puml_node\n        previous_node_class = next_node_class\n    return previous_puml_node, previous_node_class",
+  "        previous_puml_node = logic_list[-1].current_path_puml_node\n    return previous_puml_node, previous_node_class",
+  "R1.23", "the walk resumes the diagram node of one path with the model node of another")
+TT("C01", "twin-next-path-direct-returns", [
+    (WALK, '''    if next_node_class is None:
+        previous_puml_node: PUMLNode = logic_list.pop().end_node
+''', '''    if next_node_class is None:
+        return logic_list.pop().end_node, previous_node_class
+'''),
+    (WALK, '''    elif next_node_class.operator is not None:
+        previous_node_class = next_node_class
+        previous_puml_node = logic_list[-1].start_node
+''', '''    if next_node_class.operator is not None:
+        return logic_list[-1].start_node, next_node_class
+'''),
+    (WALK, '''    else:
+        previous_puml_node, previous_node_class = (
+            update_puml_graph_with_event_node(
+                puml_graph, next_node_class, logic_list[-1].start_node
+            )
+        )
+    return previous_puml_node, previous_node_class
+''', '''    return update_puml_graph_with_event_node(
+        puml_graph, next_node_class, logic_list[-1].start_node
+    )
+'''),
+], "early returns instead of assignments joined by one return")
